@@ -190,6 +190,27 @@ def run(x):
 def run(x):
     return [all(v > x for v in (3, 4, 5)), any(v == x for v in (1, 2))]
 '''),
+    ("N13 selector helper in an assignment and an augmented assignment", "selector_helpers_inlined", '''
+def pick_base_zz(attrs, vals, mask):
+    """doc"""
+    if "start" in attrs:
+        return int(attrs["start"])
+    elif any(mask):
+        if min(vals) > 5:
+            return 5
+    else:
+        return -1
+    return 0
+def run(x):
+    out = []
+    for attrs, vals in (({"start": x}, [1, 2]), ({}, [x, 9]), ({}, [7, 8]), ({}, [])):
+        mask = [v != 9 for v in vals]
+        b = pick_base_zz(attrs, vals, mask)
+        acc = [10]
+        acc[0] -= pick_base_zz(attrs, vals, mask)
+        out.append((b, acc))
+    return out
+'''),
 ]
 
 
